@@ -107,9 +107,12 @@ def _recorder_model(ctx: Ctx, c, init: FunctionInfo, reg: FunctionInfo) -> None:
 
     results = {}
     und = None
-    for extra in (None, {"Extra": Sym("EXTRAFN")}):
-        for only in (False, True):
-            for best in (False, True):
+    # the configured field table: the default one (fields=None), an explicitly empty one (only the extra columns are wanted) and a custom one
+    configs = [(None, extra, only, best) for extra in (None, {"Extra": Sym("EXTRAFN")}) for only in (False, True) for best in (False, True)]
+    configs += [(cfg, extra, False, True) for cfg in ({}, {"Custom": Sym("CUSTOMFN")}) for extra in (None, {"Extra": Sym("EXTRAFN")})]
+    for fields_cfg, extra, only, best in configs:
+        for _once in (0,):
+            for _once2 in (0,):
                 it = Interp(prog, c, lambda *_: None, call_model, max_depth=5, max_traces=16)
                 it.sym_result = lambda fv, a: Sym(fv.tag + "()")
                 env0 = {"self": Sym("self")}
@@ -122,7 +125,7 @@ def _recorder_model(ctx: Ctx, c, init: FunctionInfo, reg: FunctionInfo) -> None:
                     elif p_ == "extra_fields":
                         env0[p_] = dict(extra) if extra else None
                     elif p_ == "fields":
-                        env0[p_] = None
+                        env0[p_] = None if fields_cfg is None else dict(fields_cfg)
                     elif p_ == "problem":
                         env0[p_] = Sym("problem")
                     elif p_ in defaults:
@@ -136,16 +139,17 @@ def _recorder_model(ctx: Ctx, c, init: FunctionInfo, reg: FunctionInfo) -> None:
                 except Budget:
                     und = "too many interpretations"
                     continue
-                results[(bool(extra), only, best)] = (runs, it.prelude_len, list(it.envs))
+                results[(bool(extra), only, best, None if fields_cfg is None else tuple(fields_cfg))] = (runs, it.prelude_len, list(it.envs))
     bad = {}
     n = 0
-    for (has_extra, only, best), (runs, plen, envs) in results.items():
+    for (has_extra, only, best, given), (runs, plen, envs) in results.items():
         for (trace, rv, notes), env_after in zip(runs, envs):
             if any(e.kind == "raise" for e in trace):
                 continue
             n += 1
             pre, post = trace[:plen], trace[plen:]
-            scen = {"extra_fields": has_extra, "only_record_best_individuals": only, "is_best": best}
+            scen = {"extra_fields": has_extra, "only_record_best_individuals": only, "is_best": best,
+                    "fields": "default" if given is None else ("{}" if not given else list(given))}
             fields = env_after.get("self.fields")
             fkeys = list(fields.keys()) if isinstance(fields, dict) else None
             # every writerow is followed by a flush before the method ends / the next write
@@ -166,6 +170,9 @@ def _recorder_model(ctx: Ctx, c, init: FunctionInfo, reg: FunctionInfo) -> None:
             header = hdr[0].args[0]
             if fkeys is not None and header != fkeys:
                 bad.setdefault("header", (f"the header is {header!r} but the field mapping has the columns {fkeys!r}: rows and header disagree", scen))
+            if given is not None and sorted(map(str, header)) != sorted(list(given) + (["Extra"] if has_extra else [])):
+                bad.setdefault("header", (f"configured with fields={'{}' if not given else list(given)}" + (" and one extra field" if has_extra else "") +
+                                          f" the header is {header!r}: the log does not hold one column per configured field", scen))
             if has_extra and "Extra" not in header:
                 bad.setdefault("header", (f"the extra field is missing from the header {header!r}", scen))
             rows = [e for e in post if e.kind == "call" and e.name == "writerow"]
@@ -190,6 +197,8 @@ def _recorder_model(ctx: Ctx, c, init: FunctionInfo, reg: FunctionInfo) -> None:
                                                        + (": every FitnessK closure reads the last component (late binding)" if cell == Sym("c2") else ""), scen))
                     elif col == "Phenotype" and cell != Sym("phen:ind"):
                         bad.setdefault("extractor", (f"column Phenotype holds {cell!r}, not the registered individual's phenotype", scen))
+                    elif col == "Custom" and cell != Sym("CUSTOMFN()"):
+                        bad.setdefault("extractor", (f"column Custom holds {cell!r}, not the value of the configured field's callback", scen))
                     elif col == "Extra" and cell != Sym("EXTRAFN()"):
                         bad.setdefault("extractor", (f"column Extra holds {cell!r}, not the value of the extra field's callback", scen))
     # ---- two recorders in one process: the second one's columns do not depend on the first one's configuration
@@ -287,6 +296,22 @@ def run(ctx: Ctx) -> None:
                 break
     n = closure_rule(ctx, scope)
     ctx.floor("C20.R1", n, 1, "closures created in loops within recorder construction code")
+    # ---- R9: a column value is computed from the individual that is being registered - not looked up under its address.  id() / hash()
+    # identify an object only while it is alive; the individuals of earlier generations are collected and their addresses reused, so a
+    # table keyed by id(individual) hands a later individual the value computed for a dead one.
+    ctx.rule("C20.R9", "column extractors keep no table keyed by the address / hash of an individual (addresses are reused once an individual is collected)")
+    n9 = 0
+    for f in scope:
+        for c9 in walk_local(f.node, include_nested=True):
+            if isinstance(c9, ast.Call) and isinstance(c9.func, ast.Name) and c9.func.id in ("id", "hash") and len(c9.args) == 1:
+                in_log = any(isinstance(a, ast.Call) and isinstance(a.func, ast.Attribute) and a.func.attr in ("debug", "info", "warning", "error")
+                             for a in ancestors(c9)) or any(isinstance(a, ast.JoinedStr) for a in ancestors(c9))
+                n9 += 1
+                ctx.ob("C20.R9", f, c9, f"{c9.func.id}() of an object in recorder field code", in_log,
+                       "" if in_log else f"'{norm(c9)}' is used as (part of) a key: the address of a collected individual is reused by a later one, "
+                                         f"which is then logged with the value computed for the dead individual - the row no longer describes the registered individual")
+    ctx.ob("C20.R9", None, None, "recorder construction code scanned for address-keyed tables", True, f"{len(scope)} functions, {n9} id()/hash() calls",
+           module="geneticengine/evaluation/recorder.py")
 
     for c in csv_recs:
         init = c.methods.get("__init__")
